@@ -55,7 +55,9 @@ def build_template(name, d):
         with open(tbl, "w") as f:
             for r in w["reads"]:
                 if not r.get("unmapped") and "_" in r["name"]:
-                    f.write("%s\t%s\n" % (r["name"], r["name"].split("_")[-1]))
+                    # one of the group names starts with a blank (tables split at ", " and the like): names are kept as they are
+                    g = r["name"].split("_")[-1]
+                    f.write("%s\t%s\n" % (r["name"], " " + g if g == "gA" else g))
         extra = [x if x != "file:TABLE" else "file:" + tbl for x in extra]
     if "YAML2" in extra:
         # experiment E1 = reads of chr1, E2 = reads of chr2 + the unmapped ones
